@@ -199,7 +199,7 @@ void vector<T, Allocator>::resize(size_t new_size, Args &&... args) {
 			_elements[i].~T();
 	}else{
 		for(size_t i = _size; i < new_size; i++)
-			new (&_elements[i]) T(std::forward<Args>(args)...);
+			new (&_elements[i]) T(args...);
 	}
 	_size = new_size;
 }
